@@ -335,7 +335,7 @@ def _case(doc, o, kind, extra=None):
 
 
 def case_from_desc(d):
-    return {'wire': H.w_e2e(d['opts'], d['s'], False), 'desc': d, 'nt': True}
+    return {'wire': [399] if d.get('kind') == 'custom-arg' else H.w_e2e(d['opts'], d['s'], False), 'desc': d, 'nt': True}
 
 
 def gen_cases(seed, tier):
@@ -353,11 +353,25 @@ def gen_cases(seed, tier):
         o = _opts(rnd)
         sep = rnd.choice(['\n\n', ' ', '\n \n', '  '])
         cases.append(_case(None, o, 'join', {'s': lay(a) + sep + lay(b), 'a': lay(a), 'b': lay(b), 'sep': sep}))
+    # a macro declared through the public API whose FIRST argument is read with comments and formulas switched off:
+    # its second argument is an ordinary one and converts like the same block on its own (real code only)
+    for _ in range(300 if quick else 5000):
+        a = normalize([g.txt()] + g.items(0) + [g.txt()])
+        o = _opts(rnd)
+        o.pop('keep_braced_groups', None)
+        o.pop('keep_braced_groups_minlen', None)
+        url = rnd.choice(['plain', 'a%b', 'x$y', 'http://u.v/w%20z', ''])
+        c = _case(None, o, 'custom-arg', {'s': '\\weblink{' + url + '}' + rnd.choice(['', ' ', '\n']) + '{' + lay(a) + '}',
+                                          'body': a, 'url': url})
+        c['wire'] = [399]
+        cases.append(c)
     return cases
 
 
 def impl(c):
     d = c['desc']
+    if d['kind'] == 'custom-arg':
+        return 'BADIN'
     return H.l2t_e2e(d['opts'], d['s'], False)
 
 
@@ -378,6 +392,17 @@ def _tuples(x):
 def oracle(c):
     d = c['desc']
     o = d['opts']
+    if d['kind'] == 'custom-arg':
+        from pylatexenc.latex2text import LatexNodes2Text
+        wdb, tdb = H.custom_dbs()
+        try:
+            got = LatexNodes2Text(latex_context=tdb, **o).latex_to_text(d['s'], latex_context=wdb, tolerant_parsing=False)
+        except Exception as e:
+            return ('latex_to_text-raised-%s' % type(e).__name__, {'message': str(e)[:200]})
+        want = d['url'] + ' <' + render(_tuples(d['body']), o) + '>'
+        if want != got:
+            return ('argument-after-a-state-changing-argument-rendered-differently', {'expected': want, 'observed': got})
+        return None
     try:
         got = _real(o, d['s'])
     except Exception as e:
